@@ -43,7 +43,7 @@ def strategy(tier):
 
 
 def n_random(tier):
-    return 500 if tier == "quick" else 3000
+    return 500 if tier == "quick" else 1200
 
 
 def _prio_random(graph, seed):
